@@ -98,4 +98,9 @@ SPECS = {
         "info_meaning": "[serialization faults; deserialization faults; faults below the top level]",
         "assumptions": ["annotations are read from the Display text of the error (the only public view of them)", "the data_type text is the one the Context impl of the builder/reader sets (List vs List(..) differ between the two sides; both name the Arrow type)", "top-level field names are joined raw by the builders ($. for an empty name) and through ChildName by the readers ($.<empty>)"],
     },
+    "C05": {
+        "id": "C05", "runners": ["RunC05"],
+        "info_meaning": "[writing cells; writing cells inside the builder model; reading cells]",
+        "assumptions": ["documented lossy conversions (float narrowing, integer to float, decimal truncation to scale) are the ISkip cells of interp and are not judged here", "malformed temporal / decimal strings are judged in C14 / C15; offsets overflow of 32-bit lists needs 2^31 elements and is covered by the theorem on increment_last only"],
+    },
 }
